@@ -24,10 +24,20 @@ template<typename T> struct bandwidth_kernel {   // stateful: exp(-d^2 / (2 h^2)
   explicit bandwidth_kernel(T bw = 1): h(bw) {}
   T operator()(const std::vector<T>& a, const std::vector<T>& b) const { T d = 0; for (size_t i = 0; i < a.size(); ++i) d += (a[i] - b[i]) * (a[i] - b[i]); return std::exp(-d / (2 * h * h)); }
 };
+template<typename T> struct amplitude_kernel {   // non-negative, finite, but so large that only the MEAN (not the sum) fits into T
+  T amp;
+  explicit amplitude_kernel(T a = 1): amp(a) {}
+  T operator()(const std::vector<T>& a, const std::vector<T>& b) const { T d = 0; for (size_t i = 0; i < a.size(); ++i) d += (a[i] - b[i]) * (a[i] - b[i]); return amp / (1 + d); }
+};
+// amplitudes below: amp * 2^level stays finite for the levels reached here, amp * n does not
 template<typename K> K make_kernel(Rng&) { return K(); }
+template<> amplitude_kernel<float> make_kernel<amplitude_kernel<float>>(Rng& r) { static const float as[] = {1e36f, 2e36f, 1.0f, 1e30f}; return amplitude_kernel<float>(as[r.below(4)]); }
+template<> amplitude_kernel<double> make_kernel<amplitude_kernel<double>>(Rng& r) { static const double as[] = {1e306, 2e306, 1.0, 1e300}; return amplitude_kernel<double>(as[r.below(4)]); }
 template<> bandwidth_kernel<double> make_kernel<bandwidth_kernel<double>>(Rng& r) { static const double hs[] = {0.25, 0.5, 2.0, 4.0}; return bandwidth_kernel<double>(hs[r.below(4)]); }
 template<typename K> const char* kname();
 template<> const char* kname<bandwidth_kernel<double>>() { return "bandwidth-f64"; }
+template<> const char* kname<amplitude_kernel<float>>() { return "amplitude-f32"; }
+template<> const char* kname<amplitude_kernel<double>>() { return "amplitude-f64"; }
 template<> const char* kname<gaussian_kernel<float>>() { return "gauss-f32"; }
 template<> const char* kname<gaussian_kernel<double>>() { return "gauss-f64"; }
 template<> const char* kname<laplace_kernel<float>>() { return "laplace-f32"; }
@@ -209,8 +219,32 @@ static void program(Rng& r) {
   if (want_sample()) sample("{\"config\":" + jstr(G().cur_desc) + ",\"n\":" + std::to_string(md[alive[0]].n) + ",\"retained\":" + std::to_string(sk[alive[0]]->get_num_retained()) + "}");
 }
 
-void run_case(uint64_t, Rng& r) {
-  switch (r.below(6)) {
+// dimensions beyond 16 bits (dim is a 32-bit parameter)
+static void huge_dimension_case(Rng& r) {
+  const uint32_t dim = r.pick({65536u, 65539u, 70000u, 131075u});
+  const uint16_t k = uint16_t(r.range(2, 5));
+  describe("huge dimension dim=" + std::to_string(dim) + " k=" + std::to_string(k));
+  typedef gaussian_kernel<float> KK;
+  const KK kern{};
+  density_sketch<float, KK> s(k, dim, kern);
+  Model<float> m;
+  observe(s, m, r, "construction", k, dim, kern);
+  const int n = int(r.range(1, 2 * k + 2));
+  for (int i = 0; i < n; ++i) {
+    std::vector<float> p(dim, 0.0f);
+    for (int j = 0; j < 8; ++j) p[r.below(dim)] = float(r.unit());
+    s.update(p); m.pts.push_back(p); m.n++;
+  }
+  observe(s, m, r, "updates", k, dim, kern);
+  VF_CHECK(throws([&] { s.update(std::vector<float>(dim & 0xffff ? (dim & 0xffff) : 3, 1.0f)); }), "density|gauss-f32|wrong-dimension-update-accepted|dim-mod-65536", G().cur_desc);
+  count("huge_dimension_cases");
+}
+
+void run_case(uint64_t idx, Rng& r) {
+  if (idx % 97 == 11) { huge_dimension_case(r); return; }
+  switch (r.below(8)) {
+    case 7: program<double, amplitude_kernel<double>>(r); count("huge_amplitude_kernel_programs"); break;
+    case 6: program<float, amplitude_kernel<float>>(r); count("huge_amplitude_kernel_programs"); break;
     case 5: program<double, bandwidth_kernel<double>>(r); count("stateful_kernel_programs"); break;
     case 0: program<float, gaussian_kernel<float>>(r); break;
     case 1: program<double, gaussian_kernel<double>>(r); break;
